@@ -45,6 +45,7 @@ var (
 	c16God    = fixWallet(0x60)
 	c16Price  = big.NewInt(1)
 	c16Prims  = []string{"A+1", "A:=0", "B+1", "SET", "DEL", "EVT", "BTP", "STEP", "XFER"}
+	c16PrimsQuick3 = []string{"A:=0", "SET", "EVT", "BTP", "STEP", "XFER"}
 	c16Terms  = []string{"OK", "REVERT", "OOS", "INVALID", "OOB"}
 	c16InData = int64(len(`{"method":"run"}`))
 )
@@ -82,15 +83,16 @@ func (s *c16Script) String() string {
 type c16Variant struct {
 	Name      string `json:"name"`
 	TightPay  bool   `json:"tight_payer"` // payer owns exactly stepLimit*price
-	ScoreBal  int64  `json:"score_balance"`
 	SmallStep bool   `json:"small_step_limit"`
 }
 
+const c16ScoreBal = int64(3)
+
 var c16Variants = []c16Variant{
-	{"payer-large,score-3,limit-big", false, 3, false},
-	{"payer-tight,score-0,limit-big", true, 0, false},
-	{"payer-large,score-0,limit-small", false, 0, true},
-	{"payer-tight,score-3,limit-small", true, 3, true},
+	{"payer-large,limit-big", false, false},
+	{"payer-tight,limit-big", true, false},
+	{"payer-large,limit-small", false, true},
+	{"payer-tight,limit-small", true, true},
 }
 
 func (v *c16Variant) limit() int64 {
@@ -203,9 +205,8 @@ func (h *c16Handler) ExecuteSync(cc contract.CallContext) (error, *codec.TypedOb
 }
 
 func (h *c16Handler) runSetup(cc contract.CallContext) error {
-	v := h.sc.setup
 	as := cc.GetAccountState(h.sc.score.ID())
-	as.SetBalance(big.NewInt(v.ScoreBal))
+	as.SetBalance(big.NewInt(c16ScoreBal))
 	if _, err := as.SetValue([]byte(c16Key), []byte(c16OldValue)); err != nil {
 		return err
 	}
@@ -242,10 +243,11 @@ func (h *c16Handler) apply(cc contract.CallContext, kind string, tag int) error 
 	return nil
 }
 
-// xfer runs a nested *real* transfer handler score -> other.
+// xfer runs a nested *real* transfer handler (contract.TransferHandler obtained
+// from the real contract manager) payer -> other in its own frame.
 func (h *c16Handler) xfer(cc contract.CallContext, value *big.Int) error {
 	sc := h.sc
-	th, err := cc.ContractManager().GetCallHandler(sc.score, sc.other, value, contract.CTypeTransfer, nil)
+	th, err := cc.ContractManager().GetCallHandler(sc.payer, sc.other, value, contract.CTypeTransfer, nil)
 	if err != nil {
 		sc.harnessErrs = append(sc.harnessErrs, "GetCallHandler: "+err.Error())
 		return err
@@ -420,7 +422,7 @@ func c16NewCtx() (*c16Ctx, error) {
 		wss := service.VerifWorldSnapshot(tr)
 		c.pre[vi] = &c16Obs{}
 		c.fillState(c.pre[vi], wss)
-		if c.pre[vi].PayerBal != ps || c.pre[vi].ScoreBal != fmt.Sprint(v.ScoreBal) || c.pre[vi].ScoreVal != c16OldValue || c.pre[vi].OtherBal != "7" {
+		if c.pre[vi].PayerBal != ps || c.pre[vi].ScoreBal != fmt.Sprint(c16ScoreBal) || c.pre[vi].ScoreVal != c16OldValue || c.pre[vi].OtherBal != "7" {
 			return nil, fmt.Errorf("pre-state not installed: %+v", *c.pre[vi])
 		}
 		c.refs[vi] = map[string]*c16Obs{}
@@ -502,14 +504,16 @@ func (c *c16Ctx) exec(vi int, limit int64) (*c16Obs, error) {
 }
 
 // reference returns the observation of the block whose transaction performs
-// exactly the given effects in a single frame and succeeds (big step limit).
+// exactly the given effects in a single frame and succeeds.
 func (c *c16Ctx) reference(vi int, eff []c16Effect) (*c16Obs, error) {
 	k := effKey(eff)
 	if o, ok := c.refs[vi][k]; ok {
 		return o, nil
 	}
 	c.sc.flat, c.sc.flatEff, c.sc.cur = true, eff, nil
-	o, err := c.exec(vi, c16BigLimit)
+	// same step limit as the case: the surviving effects are a subset of what
+	// the case executed within that limit, so they fit
+	o, err := c.exec(vi, c16Variants[vi].limit())
 	c.sc.flat, c.sc.flatEff = false, nil
 	if err != nil {
 		return nil, err
@@ -616,7 +620,7 @@ func (e *c16Env) check(c *c16Ctx, cs *c16Case, o *c16Obs) {
 		nEvt, nMsg := 0, 0
 		for _, f := range surviving {
 			switch f.Kind {
-			case "EVT", "XFER":
+			case "EVT":
 				nEvt++
 			case "BTP":
 				nMsg++
@@ -646,8 +650,11 @@ func (e *c16Env) check(c *c16Ctx, cs *c16Case, o *c16Obs) {
 	// (3) payer pays exactly the fee (plus its surviving scripted +1s), treasury gets the fee
 	wantPayer := new(big.Int).Sub(bigOf(pre.PayerBal), fee)
 	for _, f := range surviving {
-		if f.Kind == "A+1" {
+		switch f.Kind {
+		case "A+1":
 			wantPayer.Add(wantPayer, big.NewInt(1))
+		case "XFER":
+			wantPayer.Sub(wantPayer, big.NewInt(1))
 		}
 	}
 	if bigOf(o.PayerBal).Cmp(wantPayer) != 0 {
@@ -667,9 +674,21 @@ func (e *c16Env) check(c *c16Ctx, cs *c16Case, o *c16Obs) {
 		fail("handler-returned-error-but-receipt-success", o.OuterErr)
 	}
 	if o.OuterErr == "" && failed {
-		// legitimate only when the fee could not be paid after a successful script (drained payer)
-		if st != module.StatusOutOfBalance || !scriptHas(cs.Script, "A:=0") {
-			fail("handler-succeeded-but-receipt-failed", fmt.Sprintf("status=%d", st))
+		// legitimate only when the script's surviving effects left the payer
+		// unable to pay the fee (rollback-on-out-of-balance branch)
+		left := bigOf(pre.PayerBal)
+		for _, f := range o.Effects {
+			switch f.Kind {
+			case "A+1":
+				left.Add(left, big.NewInt(1))
+			case "A:=0":
+				left.SetInt64(0)
+			case "XFER":
+				left.Sub(left, big.NewInt(1))
+			}
+		}
+		if st != module.StatusOutOfBalance || left.Cmp(fee) >= 0 {
+			fail("handler-succeeded-but-receipt-failed", fmt.Sprintf("status=%d payer-after-script=%s fee=%s", st, left, fee))
 		} else {
 			e.count("fee-rollback-after-successful-script")
 		}
@@ -694,6 +713,9 @@ func (e *c16Env) check(c *c16Ctx, cs *c16Case, o *c16Obs) {
 	}
 	if o.XferFail > 0 {
 		e.count("nested-real-transfer-failed")
+	}
+	if !failed && hasKind(surviving, "XFER") {
+		e.count("nested-real-transfer-succeeded")
 	}
 	if o.StepFail {
 		e.count("ran-out-of-steps-in-place")
@@ -730,11 +752,11 @@ func c16Shapes(maxT int) []c16Shape {
 	return out
 }
 
-func (sh *c16Shape) build(prims []int) *c16Script {
+func (sh *c16Shape) build(prims []int, alphabet []string) *c16Script {
 	name := func(ix []int) []string {
 		var o []string
 		for _, i := range ix {
-			o = append(o, c16Prims[i])
+			o = append(o, alphabet[i])
 		}
 		return o
 	}
@@ -750,7 +772,7 @@ func (sh *c16Shape) build(prims []int) *c16Script {
 func TestVerifC16(t *testing.T) {
 	r := ev.Start(t, "C16", "exploration")
 	maxT := r.Pick(3, 4)
-	r.Rule(fmt.Sprintf("all scripts with <= %d primitive actions in total from {A+1,A:=0,B+1,SET,DEL,EVT,BTP,STEP,XFER(nested real transfer)} laid out as outer-before / one optional nested cc.Call frame / outer-after (every split), nested terminator and outer terminator each from {OK,REVERT(32),OOS(over-consume),INVALID,OOB(failing nested real transfer propagated)}, on 4 pre-state/transaction variants (quick: total <= 2 on all 4 variants, total = 3 on the first variant only); a case = (variant, script); every case is a real signed call transaction executed by a real transition through transactionHandler/callContext/frames", maxT))
+	r.Rule(fmt.Sprintf("all scripts with <= %d primitive actions in total from {A+1,A:=0,B+1,SET,DEL,EVT,BTP,STEP,XFER(nested real TransferHandler frame payer->B)} laid out as outer-before / one optional nested cc.Call frame / outer-after (every split), nested terminator and outer terminator each from {OK,REVERT(32),OOS(over-consume),INVALID,OOB(failing nested real transfer propagated)}, on 4 pre-state/transaction variants (quick: total <= 2 on all 4 variants, total = 3 on the first variant only and over {A:=0,SET,EVT,BTP,STEP,XFER}); a case = (variant, script); every case is a real signed call transaction executed by a real transition through transactionHandler/callContext/frames", maxT))
 	r.Assume("the designated contract address runs a scripted contract.SyncContractHandler installed through a ContractManager wrapper (FixtureConfig.NewPlatform); everything else is real",
 		"reference for the expected world: the same machinery executing, in ONE frame, exactly the effects of the frames that returned success (metamorphic); payer/treasury balances are compared explicitly and zeroed before hashing",
 		"which frames failed is known to the harness because its own handler returns the errors; step accounting, frame snapshot/reset, receipts are goloop's",
@@ -823,9 +845,13 @@ func TestVerifC16(t *testing.T) {
 		}
 		defer func() { pool <- c }()
 		ch := chunks[ci]
+		alphabet := c16Prims
+		if r.Quick() && ch.sh.t == 3 {
+			alphabet = c16PrimsQuick3
+		}
 		dims := make([]int, ch.sh.t)
 		for i := range dims {
-			dims[i] = len(c16Prims)
+			dims[i] = len(alphabet)
 		}
 		idx := make([]int, ch.sh.t)
 		n := 0
@@ -834,7 +860,7 @@ func TestVerifC16(t *testing.T) {
 				atomic.StoreInt32(&expired, 1)
 				return
 			}
-			cs := &c16Case{Variant: ch.vi, Script: ch.sh.build(idx)}
+			cs := &c16Case{Variant: ch.vi, Script: ch.sh.build(idx, alphabet)}
 			r.Eval(1)
 			o, err := c.run(cs)
 			if err != nil {
